@@ -2,8 +2,10 @@ package world
 
 import (
 	"bytes"
+
 	"crypto/hmac"
 	"encoding/binary"
+	otr3 "github.com/coyim/otr3"
 	"strings"
 
 	"verif/harness/ref"
@@ -69,7 +71,43 @@ func (w *World) Abs(raw [][]byte, from, to string) M {
 	}
 	m := w.absWhole(full, from, to)
 	m["nf"] = len(raw)
+	m["xt"] = extractAgrees(raw, full)
 	return m
+}
+
+// extractAgrees compares the library's public routing helper ExtractInstanceTags with the
+// reference's reading of the tags, on the whole message and on every fragment (v3 only; other
+// messages carry no tags and the helper must say so).
+func extractAgrees(pieces [][]byte, full []byte) bool {
+	check := func(b []byte) bool {
+		ours, theirs, ok := otr3.ExtractInstanceTags(b)
+		switch {
+		case bytes.HasPrefix(b, []byte("?OTR|")):
+			f, err := ref.ParseFragment(b)
+			if err != nil {
+				return true // the reference cannot read it either: nothing to compare
+			}
+			return ok && ours == f.RT && theirs == f.ST
+		case bytes.HasPrefix(b, []byte("?OTR:")):
+			raw, err := ref.Dearmor(b)
+			if err != nil {
+				return !ok
+			}
+			h, err := ref.ParseHeader(raw)
+			if err != nil || h.Version != 3 {
+				return true // no instance tags in this message: the helper's answer is not specified
+			}
+			return ok && ours == h.RT && theirs == h.ST
+		default:
+			return !ok
+		}
+	}
+	for _, p := range pieces {
+		if !check(p) {
+			return false
+		}
+	}
+	return check(full)
 }
 
 func (w *World) absWhole(full []byte, from, to string) M {
